@@ -109,6 +109,8 @@ def gen(seed, tier="quick"):
         scn["init_kind"] = kind
         scn["init"] = init
         pool = [["consume", 1], ["consume", 1], ["consume", 2], ["remaining"]]
+        if r.random() < 0.15:
+            pool = pool + [["consume", 2.0]]      # a cost that passes the `< 1` check but is not an int: raises inside the critical section
         scn["suffix"] = [["remaining"], ["consume", 1], ["remaining"]]
         if r.random() < 0.3:
             # time moves while the threads race (each method samples the clock before it takes the lock)
@@ -326,6 +328,8 @@ def execute(scn):
                 suffix_res.append(ar(real, op[0], a))
             except Deadlock:
                 suffix_res.append("deadlock")
+            except Exception as exc:  # noqa: BLE001
+                suffix_res.append("raised:" + type(exc).__name__)
         def make_instance():
             inst, _ck = build()          # rebinding the clock seam is fine: the racing phase is over
             return inst
@@ -352,7 +356,15 @@ def execute(scn):
                     break
             ok = True
         else:
-            ok, w = linearizable_by_replay(make_instance, history, lambda inst, n, a: ar(inst, n, a),
+            def ar_safe(inst, n, a):
+                try:
+                    return ar(inst, n, a)
+                except Deadlock:
+                    return "deadlock"
+                except Exception as exc:  # noqa: BLE001 - the replay must see what the threads saw
+                    return "raised:" + type(exc).__name__
+
+            ok, w = linearizable_by_replay(make_instance, history, ar_safe,
                                            [(o[0], o[1] if len(o) > 1 else None) for o in scn["suffix"]], suffix_res)
         seams.bind(clock, None)
         if not ok:
